@@ -182,12 +182,12 @@ def run(ctx):
     ctx.sample({"input": show_bytes(mid["input"]), "spec_valid": mid["valid"], "spec_listing": [show_bytes(e["name"]) for e in mid["list"]]})
 
     # binding C
-    lim = 2500 if not ctx.thorough else 15000
+    lim = 2500 if not ctx.thorough else 8000
     sub = cases if len(cases) <= lim else [cases[i] for i in sorted(ctx.rng.sample(range(len(cases)), lim))]
     audit(ctx, sub, "gen")
 
     # binding B on mutated real-world-shaped files
-    nr = 600 if not ctx.thorough else 5000
+    nr = 600 if not ctx.thorough else 4000
     rnd = [{"input": b2l(b)} for b in BASES]
     while len(rnd) < nr:
         b = mutate(ctx.rng, ctx.rng.choice(BASES))
